@@ -868,9 +868,10 @@ def relay_owns_receiver(ctx):
     relays = {r.fn_of(x).name for x in r.relays()}
     def is_creation(t):
         return re.search(r"channel::(bounded|unbounded)$", t["callee"]["base"]) and t["callee"]["gargs"] and tyname(t["callee"]["gargs"][0]) == "TargetActorOutputMessage"
-    created = [(bb, t) for bb, t in ma.calls() if is_creation(t) and ma.origin(bb) == ma.name]
+    created = [(bb, t) for bb, t in ma.calls() if is_creation(t)]
+    stored_ok = bool(stored) and all(fn in dropped_fields for _, fn in stored)
     if created:
-        # the receiver created next to TargetActors is moved into the engine entry
+        # the receiver created next to TargetActors is moved into the engine entry (or it is a stored handle that the shutdown drops first)
         for bb, t in created:
             fl = ma.prov.flows_forward(t["dest"]["local"])
             moved = False
@@ -880,10 +881,10 @@ def relay_owns_receiver(ctx):
                     for a in ct["args"]:
                         if a["k"] == "move" and a["place"]["local"] in fl and "Receiver" in ma.locals[a["place"]["local"]]["ty"]:
                             moved = True
-            ctx.check(moved and all(ok for _, _, ok in clones), "main/receiver-moved-into-engine", [site(ma, bb)], "the receiver of the actor-output channel is not handed over (moved) to the engine")
+            ctx.check((moved or stored_ok) and all(ok for _, _, ok in clones), "main/receiver-moved-into-engine", [site(ma, bb)], "the receiver of the actor-output channel is not handed over (moved) to the engine")
     else:
         anywhere = [(b, bb) for b in f.user_bodies() for bb, t in b.calls() if is_creation(t)]
         ctx.need(anywhere, "creation of the actor-output channel")
         # created elsewhere (e.g. by the actor registry): then the receiver lives in a struct, and the stored-handle obligation above applies
-        ctx.check(bool(stored) and all(fn in dropped_fields for _, fn in stored), "receiver-owner", [site(b, bb) for b, bb in anywhere],
+        ctx.check(stored_ok, "receiver-owner", [site(b, bb) for b, bb in anywhere],
                   "the actor-output channel is created outside main and its receiver is neither moved into the engine nor a stored handle that the shutdown drops first")
